@@ -26,6 +26,11 @@ impl Clone for SV { fn clone(&self) -> SV { SV(self.0) } }
 pub const E: usize = std::mem::size_of::<Entry<u8, SV>>();
 pub const N: usize = 4;
 
+/// contract harnesses (proof_for_contract) start with havocked statics: set every switch explicitly
+pub fn table_defaults() {
+    unsafe { table::MONITOR_HASH = true; table::NONDET_PLACEMENT = false; table::NONDET_TOMBSTONE = false; table::NONDET_ALLOC_FAIL = false; table::NONDET_CAP = false; }
+}
+
 pub fn nondet(placement: bool, tombstone: bool) {
     unsafe { table::NONDET_PLACEMENT = placement; table::NONDET_TOMBSTONE = tombstone; }
 }
